@@ -242,6 +242,24 @@ func IV(n byte) []byte {
 	for i := range v {
 		v[i] = n*7 + byte(i)*3
 	}
+	// indexes 0xf1.. are the IVs at which the 128-bit big-endian block counter carries
+	// out of its low bytes within the first blocks of a body
+	switch n {
+	case 0xf1: // the low word wraps after the first block
+		copy(v[12:], []byte{0xff, 0xff, 0xff, 0xff})
+	case 0xf2: // ... after 16 blocks
+		copy(v[12:], []byte{0xff, 0xff, 0xff, 0xf0})
+	case 0xf3: // the whole counter wraps to zero
+		for i := range v {
+			v[i] = 0xff
+		}
+	case 0xf4: // the carry runs through the low half
+		for i := 8; i < 16; i++ {
+			v[i] = 0xff
+		}
+	case 0xf5: // the carry leaves the last byte only
+		v[15] = 0xff
+	}
 	return v
 }
 
